@@ -130,6 +130,9 @@ var corpus = []string{
 	`(prog (var n 0) (while (< (post++ n) 1) (block (expr 1) (block (break)) (expr 2))))`,
 	`(prog (label L (try (block (expr 1)) _ (finally (block (break L))))))`,
 	`(prog (label L1 (label L2 (for (var i 0) (< i 2) (post++ i) (block (expr (call log i)) (continue L1))))))`,
+	`(prog (classdecl B _) (classdecl A B (ctor (params) (expr (call log (typeof (call (arrowe (params) this))))) (expr (super)))) (try (block (expr (new A))) (catch e (expr (call log e))) _))`,
+	`(prog (classdecl B _ (method m (params) (return 1))) (classdecl A B (ctor (params) (expr (call log (call (arrowe (params) (call (superdot m)))))) (expr (super)))) (try (block (expr (new A))) (catch e (expr (call log e))) _))`,
+	`(prog (classdecl B _ (method m (params) (return 1))) (classdecl A B (ctor (params) (var f (arrowe (params) (arr (=== this o) (call (superdot m))))) (expr (super)) (var o this) (expr (call log (call f))))) (expr (new A)))`,
 	// ---- anchors: scopes, closures, TDZ ----
 	`(prog (const a 1) (expr (call log (call (arrowe (params) (call (arrowe (params) a)))))))`,
 	`(prog (let a 1) (var f (arrowe (params) a)) (expr (= a 2)) (expr (call log (call f))))`,
